@@ -51,6 +51,34 @@ def run_check(prop):
             "failing_input": bool(line) and "no-failing-input-found" not in line}
 
 
+def patch_summary(path):
+    """files and functions a patch touches, and its first added comment (for seeds stored without their notes)"""
+    import re
+    if not os.path.exists(path):
+        return ""
+    files, funcs, comment = [], [], ""
+    for l in open(path, errors="ignore"):
+        if l.startswith("+++ b/"):
+            files.append(l[6:].strip())
+        elif l.startswith("@@"):
+            m = re.search(r"func (?:\([^)]*\) )?(\w+)", l)
+            if m and m.group(1) not in funcs:
+                funcs.append(m.group(1))
+        elif l.startswith("+") and not l.startswith("+++"):
+            m = re.match(r"\+\s*func (?:\([^)]*\) )?(\w+)", l)
+            if m and m.group(1) not in funcs:
+                funcs.append(m.group(1))
+            t = l[1:].strip()
+            if not comment and t.startswith("//") and len(t) > 12:
+                comment = t.lstrip("/ ").strip()
+    out = ", ".join(files)
+    if funcs:
+        out += " (" + ", ".join(funcs[:4]) + ")"
+    if comment:
+        out += ": \"" + comment[:100] + "\""
+    return out
+
+
 def main():
     only = [a for a in sys.argv[1:] if not a.startswith("--")]
     everything = "--all" in sys.argv
@@ -103,6 +131,8 @@ def main():
             txt = json.load(open(mp)).get("needs_to_manifest", "")
             first = [l for l in txt.splitlines() if l.strip()]
             what = first[0].lstrip("# ").strip()[:150] if first else ""
+        if not what:
+            what = patch_summary(os.path.join(VERIF, "seeded", s, "patch.diff"))
         if not r.get("applies"):
             lines.append("| %s | %s | (patch no longer applies to the repaired tree) | |" % (s, what))
             continue
